@@ -13,10 +13,18 @@
 (* reader; with enough calls in flight the five loops wait for each other  *)
 (* in a cycle (D15).  Coupled = FALSE gives the handle loop a separate     *)
 (* writer goroutine.                                                       *)
+(*                                                                         *)
+(* B > 0: the session's calls wait for each other - a call returns only    *)
+(* once B calls have reached the session (sleepfs-like sessions, reads     *)
+(* that a later write releases).  Called directly all of them complete, so *)
+(* they must complete through the stack: the serve loop must keep taking   *)
+(* requests however many handlers are running.  HCap > 0 bounds the number *)
+(* of running handlers (the code has no bound: HCap = 0) and shows the     *)
+(* circular wait such a bound creates.                                     *)
 (***************************************************************************)
 EXTENDS Integers, Sequences, FiniteSets, TLC
 
-CONSTANTS N, K, Coupled
+CONSTANTS N, K, Coupled, B, HCap
 
 VARIABLES call,   \* caller -> "idle" | "offer" | "wait" | "done"
           h,      \* H: 0 = at its select, i > 0 = blocked writing request i
@@ -24,41 +32,49 @@ VARIABLES call,   \* caller -> "idle" | "offer" | "wait" | "done"
           c2s, s2c,   \* pipes (sequences of call ids)
           sr,     \* SR: 0 = reading, i = offering request i to SL
           sl,     \* SL: 0 = at its select, i = blocked handing reply i to SW
+          ins,    \* handlers inside the session (waiting for the barrier when B > 0)
+          arr,    \* number of calls that have reached the session
           comp,   \* handlers offering a completed reply
           sw,     \* SW: 0 = receiving, i = blocked writing reply i
           cr      \* CR: 0 = reading, i = offering reply i to H
-vars == <<call, h, wq, c2s, s2c, sr, sl, comp, sw, cr>>
+vars == <<call, h, wq, c2s, s2c, sr, sl, ins, arr, comp, sw, cr>>
 Calls == 1..N
 
 Init == /\ call = [i \in Calls |-> "idle"] /\ h = 0 /\ wq = <<>> /\ c2s = <<>> /\ s2c = <<>>
-        /\ sr = 0 /\ sl = 0 /\ comp = {} /\ sw = 0 /\ cr = 0
+        /\ sr = 0 /\ sl = 0 /\ ins = {} /\ arr = 0 /\ comp = {} /\ sw = 0 /\ cr = 0
 
-Issue(i) == call[i] = "idle" /\ call' = [call EXCEPT ![i] = "offer"] /\ UNCHANGED <<h, wq, c2s, s2c, sr, sl, comp, sw, cr>>
+Issue(i) == call[i] = "idle" /\ call' = [call EXCEPT ![i] = "offer"] /\ UNCHANGED <<h, wq, c2s, s2c, sr, sl, ins, arr, comp, sw, cr>>
 
 \* H takes a request from a caller
 HTake(i) == /\ h = 0 /\ call[i] = "offer"
             /\ call' = [call EXCEPT ![i] = "wait"]
             /\ IF Coupled THEN h' = i /\ UNCHANGED wq ELSE wq' = Append(wq, i) /\ UNCHANGED h
-            /\ UNCHANGED <<c2s, s2c, sr, sl, comp, sw, cr>>
+            /\ UNCHANGED <<c2s, s2c, sr, sl, ins, arr, comp, sw, cr>>
 \* the request write: into the pipe if it has room, or straight into the hands of SR when K = 0
 WriteReq(i) == IF K = 0 THEN sr = 0 /\ sr' = i /\ UNCHANGED c2s
                ELSE Len(c2s) < K /\ c2s' = Append(c2s, i) /\ UNCHANGED sr
-HWrite == /\ Coupled /\ h # 0 /\ WriteReq(h) /\ h' = 0 /\ UNCHANGED <<call, wq, s2c, sl, comp, sw, cr>>
-CWWrite == /\ ~Coupled /\ wq # <<>> /\ WriteReq(Head(wq)) /\ wq' = Tail(wq) /\ UNCHANGED <<call, h, s2c, sl, comp, sw, cr>>
-SRRead == /\ K > 0 /\ sr = 0 /\ c2s # <<>> /\ sr' = Head(c2s) /\ c2s' = Tail(c2s) /\ UNCHANGED <<call, h, wq, s2c, sl, comp, sw, cr>>
+HWrite == /\ Coupled /\ h # 0 /\ WriteReq(h) /\ h' = 0 /\ UNCHANGED <<call, wq, s2c, sl, ins, arr, comp, sw, cr>>
+CWWrite == /\ ~Coupled /\ wq # <<>> /\ WriteReq(Head(wq)) /\ wq' = Tail(wq) /\ UNCHANGED <<call, h, s2c, sl, ins, arr, comp, sw, cr>>
+SRRead == /\ K > 0 /\ sr = 0 /\ c2s # <<>> /\ sr' = Head(c2s) /\ c2s' = Tail(c2s) /\ UNCHANGED <<call, h, wq, s2c, sl, ins, arr, comp, sw, cr>>
 \* SL takes the request, the handler runs and offers its reply
-SLReq == /\ sl = 0 /\ sr # 0 /\ comp' = comp \cup {sr} /\ sr' = 0 /\ UNCHANGED <<call, h, wq, c2s, s2c, sl, sw, cr>>
-SLComp(i) == /\ sl = 0 /\ i \in comp /\ sl' = i /\ comp' = comp \ {i} /\ UNCHANGED <<call, h, wq, c2s, s2c, sr, sw, cr>>
-SLFwd == /\ sl # 0 /\ sw = 0 /\ sw' = sl /\ sl' = 0 /\ UNCHANGED <<call, h, wq, c2s, s2c, sr, comp, cr>>
+SLReq == /\ sl = 0 /\ sr # 0 /\ (HCap = 0 \/ Cardinality(ins) < HCap)
+         /\ IF B = 0 THEN comp' = comp \cup {sr} /\ UNCHANGED <<ins, arr>>      \* handlers answer at once
+                     ELSE ins' = ins \cup {sr} /\ arr' = arr + 1 /\ UNCHANGED comp
+         /\ sr' = 0 /\ UNCHANGED <<call, h, wq, c2s, s2c, sl, sw, cr>>
+\* the session call returns (at once when B = 0, else when B calls have arrived)
+HRet(i) == /\ i \in ins /\ arr >= B /\ ins' = ins \ {i} /\ comp' = comp \cup {i}
+           /\ UNCHANGED <<call, h, wq, c2s, s2c, sr, sl, arr, sw, cr>>
+SLComp(i) == /\ sl = 0 /\ i \in comp /\ sl' = i /\ comp' = comp \ {i} /\ UNCHANGED <<call, h, wq, c2s, s2c, sr, ins, arr, sw, cr>>
+SLFwd == /\ sl # 0 /\ sw = 0 /\ sw' = sl /\ sl' = 0 /\ UNCHANGED <<call, h, wq, c2s, s2c, sr, ins, arr, comp, cr>>
 SWWrite == /\ sw # 0
            /\ IF K = 0 THEN cr = 0 /\ cr' = sw /\ UNCHANGED s2c ELSE Len(s2c) < K /\ s2c' = Append(s2c, sw) /\ UNCHANGED cr
-           /\ sw' = 0 /\ UNCHANGED <<call, h, wq, c2s, sr, sl, comp>>
-CRRead == /\ K > 0 /\ cr = 0 /\ s2c # <<>> /\ cr' = Head(s2c) /\ s2c' = Tail(s2c) /\ UNCHANGED <<call, h, wq, c2s, sr, sl, comp, sw>>
+           /\ sw' = 0 /\ UNCHANGED <<call, h, wq, c2s, sr, sl, ins, arr, comp>>
+CRRead == /\ K > 0 /\ cr = 0 /\ s2c # <<>> /\ cr' = Head(s2c) /\ s2c' = Tail(s2c) /\ UNCHANGED <<call, h, wq, c2s, sr, sl, ins, arr, comp, sw>>
 \* H takes the reply from CR and wakes the caller
-HDeliver == /\ h = 0 /\ cr # 0 /\ call' = [call EXCEPT ![cr] = "done"] /\ cr' = 0 /\ UNCHANGED <<h, wq, c2s, s2c, sr, sl, comp, sw>>
+HDeliver == /\ h = 0 /\ cr # 0 /\ call' = [call EXCEPT ![cr] = "done"] /\ cr' = 0 /\ UNCHANGED <<h, wq, c2s, s2c, sr, sl, ins, arr, comp, sw>>
 
 AllDone == \A i \in Calls : call[i] = "done"
-Step == \/ \E i \in Calls : Issue(i) \/ HTake(i) \/ SLComp(i)
+Step == \/ \E i \in Calls : Issue(i) \/ HTake(i) \/ SLComp(i) \/ HRet(i)
         \/ HWrite \/ CWWrite \/ SRRead \/ SLReq \/ SLFwd \/ SWWrite \/ CRRead \/ HDeliver
 Next == Step \/ (AllDone /\ UNCHANGED vars)
 Spec == Init /\ [][Next]_vars /\ WF_vars(Step)
